@@ -1540,6 +1540,14 @@ class Engine:
                     raise Unsupported('KeyError on concrete dict key %r' % (k,))
                 return c.items[k]
             if isinstance(c, (ArrC, SeqC)):
+                if isinstance(sl, ast.Slice) and sl.lower is None and sl.upper is None and sl.step is not None and \
+                        self.ev(sl.step, st) == -1:
+                    k = fresh('k', I)                       # x[::-1]: reversed copy / view
+                    if isinstance(c, ArrC):
+                        return st.new_ref(ArrC(z3.Lambda([k], c.vals[c.n - 1 - k]), c.n,
+                                               None if c.nans is None else z3.Lambda([k], c.nans[c.n - 1 - k]), kind=c.kind), 'reversed')
+                    return st.new_ref(SeqC(z3.Lambda([k], c.arr[c.n - 1 - k]), c.n,
+                                           None if c.nans is None else z3.Lambda([k], c.nans[c.n - 1 - k])), 'reversed')
                 if isinstance(sl, ast.Slice):
                     lo, hi = self.slice_bounds(sl, c.n, st)
                     if isinstance(c, ArrC):
@@ -1732,7 +1740,26 @@ class Engine:
                 return
             if isinstance(c, SeqC):
                 if isinstance(sl, ast.Slice):
-                    raise Unsupported('slice store into sequence')
+                    # python list slice assignment: bounds are clamped to [0, n]; the slice is replaced by the elements of the
+                    # right-hand side (the length changes when the sizes differ)
+                    if not (isinstance(value, Ref) and isinstance(st.content(value), SeqC)) or c.nans is not None:
+                        raise Unsupported('slice store into sequence')
+                    src = st.content(value)
+                    if src.nans is not None or src.arr.sort() != c.arr.sort():
+                        raise Unsupported('slice store into sequence (element kinds differ)')
+                    lo, hi = self.slice_bounds(sl, c.n, st)
+                    if z3.is_real(lo):
+                        lo = z3.ToInt(lo)
+                    if z3.is_real(hi):
+                        hi = z3.ToInt(hi)
+                    clamp = lambda x: z3.If(x < 0, z3.If(c.n + x < 0, z3.IntVal(0), c.n + x), z3.If(x > c.n, c.n, x))      # noqa
+                    lo = clamp(lo)
+                    hi = clamp(hi)
+                    hi = z3.If(hi < lo, lo, hi)
+                    k = fresh('k', I)
+                    arr = z3.Lambda([k], z3.If(k < lo, c.arr[k], z3.If(k < lo + src.n, src.arr[k - lo], c.arr[k - src.n + (hi - lo)])))
+                    st.set_content(base, SeqC(arr, c.n - (hi - lo) + src.n, None))
+                    return
                 i = self.norm_index(self.ev(sl, st), c.n)
                 if c.nans is not None or isinstance(value, NR):
                     x = as_real(value)
